@@ -2,7 +2,7 @@
 
   line   ::= (let ((var sexp)*) op) | op
   op     ::= (parse sources stmt)                 -> (ok <agrees-with-compile>) | (error <kind>)
-           | (run sources stmt db)                -> ((parse ok|<kind>) (sql <rel>|none) (denote <rel>|none))
+           | (run sources stmt db)                -> ((parse ok|<kind> wf|not-wf balanced|unbalanced) (sql <rel>|none) (denote <rel>|none))
            | (hist (feed*) (db*) (hop*))          -> ((run (<rel>|none)*) (spec (<rel>|none)*))   one entry per read
   feed   ::= (alchemy|lazy sources storage-index)
   hop    ::= (read feed-index stmt) | (mutate storage-index db) | (restart)
@@ -13,6 +13,7 @@
 import ForML.Model.Sexp
 import ForML.Model.Dsl
 import ForML.Model.Parser
+import ForML.Model.ParserWF
 import ForML.Model.DslDenote
 import ForML.Model.FeedCache
 open ForML ForML.Dsl ForML.Rel ForML.Parser
@@ -98,7 +99,8 @@ def stepC06 (line : Sexp) : Sexp :=
       let sql := match p with
         | .ok q => evalSql q db
         | .error _ => none
-      .list [.list [.atom "parse", .atom (match p with | .ok _ => "ok" | .error e => e.wire)],
+      .list [.list [.atom "parse", .atom (match p with | .ok _ => "ok" | .error e => e.wire),
+                    .atom (if WF srcs s then "wf" else "not-wf"), .atom (if ForML.Denote.crossBalanced srcs s db then "balanced" else "unbalanced")],
              .list [.atom "sql", optRelToSexp sql],
              .list [.atom "denote", optRelToSexp (ForML.Denote.denote srcs s db)]]
     | _, _, _ => .atom "bad-op"
